@@ -1,0 +1,61 @@
+//go:build verif
+
+// Contracts for the verification machinery in /verif (comment-only; compiled only with -tags verif).
+
+package patchvalidator
+
+// ---- C18: structural rules of validated deltas ----
+//
+//@ spec decodedPatch(buf bytes) jsonpatch.Patch
+//@ spec decodeOK(buf bytes) bool
+//@ extern github.com/evanphx/json-patch.DecodePatch
+//@   params buf
+//@   results p, err
+//@   ensures (err == nil) == decodeOK(buf)
+//@   ensures err == nil ==> p == decodedPatch(buf) && (forall q int :: 0 <= q && q < len(p) ==> p[q] != nil)
+//
+//@ spec protectedPtr(s string) bool { hasPrefix(s, "/service") || hasPrefix(s, "/publicKey") }
+//@ spec memberStr(op jsonpatch.operation, name string) bool { name in op && op[name] != nil && jsonStrOK(deref(op[name])) }
+//@ spec opAllowed(op jsonpatch.operation) bool {
+//@     memberStr(op, "path") && !protectedPtr(jsonStrOf(deref(op["path"]))) &&
+//@     (("from" in op && op["from"] != nil) ==> jsonStrOK(deref(op["from"])) && !protectedPtr(jsonStrOf(deref(op["from"])))) }
+//
+// an accepted JSON patch can neither address, move nor remove the public-key or service sections
+//@ func validateJSONPatches
+//@   loop 1
+//@     invariant forall q int :: 0 <= q && q < _k ==> opAllowed(jsonPatches[q])
+//@   ensures result == nil ==> decodeOK(patches) && (forall q int :: 0 <= q && q < len(decodedPatch(patches)) ==> opAllowed(decodedPatch(patches)[q]))
+//@   modifies *
+//
+// every string endpoint of an endpoint array must be a valid URI
+//@ func validateURI
+//@   ensures (result == nil) == (uri != "" && uriOK(uri))
+//
+//@ func validateServiceEndpointObjects
+//@   loop 1
+//@     invariant forall q int :: 0 <= q && q < _k && isType(objs[q], "string") ==> unbox(objs[q], "string") != "" && uriOK(unbox(objs[q], "string"))
+//@   ensures result == nil ==> (forall q int :: 0 <= q && q < len(objs) && isType(objs[q], "string") ==> unbox(objs[q], "string") != "" && uriOK(unbox(objs[q], "string")))
+//
+//@ func validateURIs
+//@   loop 1
+//@     invariant forall q int :: 0 <= q && q < _k ==> uris[q] != "" && uriOK(uris[q])
+//@   ensures (result == nil) == (forall q int :: 0 <= q && q < len(uris) ==> uris[q] != "" && uriOK(uris[q]))
+//
+//@ spec idChars(s string) bool
+//@ extern (*regexp.Regexp).MatchString
+//@   params re, s
+//@   ensures result == idChars(s)
+//@ func validateID
+//@   ensures (result == nil) == (len(id) <= 50 && idChars(id))
+//@ func validateServiceID
+//@   ensures (result == nil) == (id != "" && len(id) <= 50 && idChars(id))
+//@ func validateServiceType
+//@   ensures (result == nil) == (serviceType != "" && len(serviceType) <= 30)
+//@ func validateIds
+//@   loop 1
+//@     invariant forall q int :: 0 <= q && q < _k ==> len(ids[q]) <= 50 && idChars(ids[q])
+//@   ensures (result == nil) == (forall q int :: 0 <= q && q < len(ids) ==> len(ids[q]) <= 50 && idChars(ids[q]))
+//@ func contains
+//@   loop 1
+//@     invariant forall q int :: 0 <= q && q < _k ==> values[q] != value
+//@   ensures result == (exists q int :: 0 <= q && q < len(values) && values[q] == value)
